@@ -68,6 +68,7 @@ MUTANTS += [
     ('revert-c13-eof-at-prompt', ['C13', 'C18'], 'frontends/tui/terminal_ui.py', "            except EOFError:\n                break # nobody is there to type commands (any more), that is not an error\n", "            except EOFError:\n                raise\n"),
     ('revert-c08-flush', ['C08'], 'core/output/stream.py', "print(string, file=self.file, flush=True)", "print(string, file=self.file)"),
     ('revert-c16-exact-second', ['C16'], CT, "        if round(delta, 6) > 1.0:\n", "        if delta > 1.0:\n"),
+    ('revert-c11-tilde-in-string', ['C11'], CT, "            elif c == '~' and not in_string:\n", "            elif c == '~':\n"),
     ('revert-c13-closed-order', ['C13'], P, "            self.known_connections[conn_id] = None\n", "            self.known_connections[conn_id] = None\n            self.known_connections = dict.fromkeys(set(self.known_connections))\n"),
     ('revert-c18-pipe-strict-stdin', ['C18', 'C13'], 'main.py', "sys.stdin.reconfigure(newline=None, errors='replace')", "sys.stdin.reconfigure(newline=None)"),
     ('revert-c18-undecodable-file', ['C18'], 'main.py', "open(file_path, errors='replace')", "open(file_path)"),
